@@ -16,6 +16,7 @@ from typing import Any
 
 from .minieval import Evaluator, Exhausted, Host, Raised, Refused, Sym, UserFunc
 from .model import Repo
+from .foldpool import disk_cached
 
 SLOTS = ("_read", "_read_array", "_read_0", "_write", "_write_array", "_write_0", "__default__")
 ORDER = {"@": sys.byteorder, "=": sys.byteorder, "<": "little", ">": "big", "!": "big"}
@@ -69,7 +70,7 @@ class Family:
     def __init__(self, repo: Repo, family: str):
         self.repo, self.family = repo, family
         self.slots = {s: repo.lookup_method(family, s) for s in SLOTS}
-        self.env: dict[str, Any] = {"Struct": Host(_struct_host), "isinstance": Host(self._isinstance), "int": int}
+        self.env: dict[str, Any] = {"Struct": Host(_struct_host), "isinstance": Host(self._isinstance), "int": int, "float": float, "issubclass": Host(self._issubclass)}
         self.env["ENDIANNESS_MAP"] = _module_constant(repo, "utils.py", "ENDIANNESS_MAP", {"sys": Sym("sys", {"byteorder": sys.byteorder})})
         self.env["EOF"] = _module_constant(repo, "types/base.py", "EOF", {})
         for rel in ("types/base.py", "types/packed.py", "types/int.py", "utils.py"):
@@ -95,7 +96,19 @@ class Family:
     def _isinstance(o: Any, k: Any) -> bool:
         if k is int:
             return isinstance(o, int) and not isinstance(o, bool)
+        if k is float:
+            return isinstance(o, float)
+        if isinstance(k, tuple) and all(x in (int, float) for x in k):
+            return isinstance(o, k) and not isinstance(o, bool)
         raise Refused("isinstance against a non-builtin class")
+
+    @staticmethod
+    def _issubclass(t: Any, k: Any) -> bool:
+        ks = k if isinstance(k, tuple) else (k,)
+        if isinstance(t, Sym) and all(x in (int, float, bytes, str) for x in ks):
+            kind = float if t.attrs.get("packchar") in ("e", "f", "d") else int
+            return kind in ks
+        raise Refused("issubclass against a non-builtin class")
 
     def cls(self, *, size: int, endian: str, signed: bool | None = None, packchar: str | None = None) -> Sym:
         attrs: dict[str, Any] = {"size": size, "cs": Sym("cs", {"endian": endian}), "__name__": self.family}
@@ -104,6 +117,12 @@ class Family:
         if packchar is not None:
             attrs["packchar"] = packchar
         methods: dict[str, Any] = {s: UserFunc(f.node) for s, f in self.slots.items() if f is not None}
+        # private helpers the slots call on the class (range checks, cached packers, ...) - resolved through the family's own class
+        for f in self.slots.values():
+            if f is not None and f.cls is not None:
+                for q_, g_ in f.module.functions.items():
+                    if q_.startswith(f.cls.name + ".") and q_.count(".") == 1 and q_.split(".")[1] not in methods:
+                        methods[q_.split(".")[1]] = UserFunc(g_.node)
         methods["__new__"] = Host(lambda c, v=0: v)
         methods["from_bytes"] = Host(lambda data, order, signed=False: int.from_bytes(bytes(data), order, signed=signed))
         c = Sym(self.family, attrs, methods)
@@ -173,6 +192,7 @@ def _values(cfg: dict) -> list:
     return [1, 0x5A, (1 << bits) - 1, 1 << (bits - 1), 0xA5 % (1 << bits) or 7]
 
 
+@disk_cached('codecfamily', ('types/', 'utils.py'))
 def fold_family(repo: Repo, family: str) -> dict | None:
     """{'cases': n, 'bad': [(slot, config, what, got, want)], 'slots': {slot: implementing function}} or None when not foldable."""
     try:
@@ -271,6 +291,7 @@ def _text_isinstance(o: Any, k: Any) -> bool:
     raise Refused("isinstance against a non-builtin class")
 
 
+@disk_cached('textfamily', ('types/', 'utils.py'))
 def fold_text_family(repo: Repo, family: str) -> dict | None:
     """Wchar (UTF-16 in the current byte order) and Char (raw bytes): _read / _read_array / _read_0 / _write against the reference codec."""
     try:
